@@ -50,6 +50,10 @@ def scenario(draw) -> Dict[str, Any]:
         ev = dict(draw(st.one_of(q_st, q_st, c04.resp_op().map(lambda o: {'kind': 'resp', 'recs': o[1]}),
                                  c04.announce_op().map(lambda o: {'kind': 'resp', 'recs': o[1]}))))
         ev['gap'] = draw(st.one_of(st.sampled_from(GAPS), st.integers(0, 4000)))
+        if ev['kind'] == 'resp':
+            # legal but unusual: a response that echoes a question with the QU bit - the duplicate guard does not apply to it, so
+            # the second copy reaches the cache as a refresh (which must not change anything either)
+            ev['echo_qu'] = draw(st.sampled_from([False, False, False, True]))
         events.append(ev)
         if draw(st.integers(0, 5)) == 0:
             # a peer that repeats itself: the very same bytes again after a pause (a poller re-sending an identical query, a
@@ -122,7 +126,8 @@ def run_once(case: Dict[str, Any], dup: bool) -> Dict[str, Any]:
                     if 'inst' in r:
                         r['sp'] = spelling.setdefault((r['type'], r['inst']), r['sp'])
                     recs.append(r)
-                data = wire.encode({'id': i + 1, 'flags': 0x8400, 'qd': [], 'an': [c04.to_rr(r) for r in recs], 'ns': [], 'ar': []})
+                qd = [{'name': wire.labels_of(TYPES[0]), 'type': 12, 'cls': 0x8001}] if ev.get('echo_qu') else []
+                data = wire.encode({'id': i + 1, 'flags': 0x8400, 'qd': qd, 'an': [c04.to_rr(r) for r in recs], 'ns': [], 'ar': []})
                 src = ('fe80::9', 5353, 0, 2) if v6 else ('10.0.0.9', 5353)
                 has_qu = False
             prev = (data, src, has_qu)
@@ -130,7 +135,7 @@ def run_once(case: Dict[str, Any], dup: bool) -> Dict[str, Any]:
             w.net.inject(host, data, src)
             if dup:
                 w.net.inject(host, data, src)
-        await asyncio.sleep(3.0)
+        await asyncio.sleep(12.0)      # past the next 10 s purge: an entry whose lifetime was changed shows up as a callback
         out['injected'] = injected
         out['callbacks'] = [[(e['kind'], e['type'], e['name'], round(e['t'] * 1000 - t0, 2)) for e in lst.events if e['t'] * 1000 >= t0]
                             for lst in listeners]
